@@ -62,9 +62,7 @@ def cbytes(b):
     b = bytes(b)
     if not b:
         return "(@nil byte)"
-    if len(b) <= 6:
-        return "[" + ";".join("x%02x" % x for x in b) + "]"
-    return '(unhex "%s"%%string)' % b.hex()
+    return "[" + ";".join("x%02x" % x for x in b) + "]"     # (list literals elaborate 3x faster than unhex "..")
 
 
 def cfield(f):
@@ -636,7 +634,7 @@ class History(Entry):
         if round == 0:
             for dl in DELIMS:
                 cs += adversarial(r, dl is not None, dl)
-        n = ctx.n(70, 1500) if round == 0 else ctx.n(40, 300)
+        n = ctx.n(200, 3000) if round == 0 else ctx.n(60, 300)
         maxops = ctx.n(8, 40)
         for i in range(n):
             cs.append(random_history(r, maxops if (ctx.quick() or i % 10) else 40))
@@ -686,27 +684,50 @@ class History(Entry):
             return "FnWrite %s %s c%d %s %s" % (cbool(o["append"]), cdelim(o["dl"]), o["c"], d, u)
         return "Read"
 
-    def _obs(self, ob):
+    def _ans(self, ob):
         a = ob["ans"]
         if a[0] == "ok":
-            r = "OOk"
-        elif a[0] == "err":
-            r = "(OErr %s)" % a[1]
-        else:
-            r = "(ORead %s %s (Some %s) %s)" % (cz(a[1]), cdtype(a[2] or []), crows(a[3]), cbytes(bytes.fromhex(a[4])))
-        return "(%s, %s)" % (r, cofile(ob["disk"]))
+            return "OOk"
+        if a[0] == "err":
+            return "(OErr %s)" % a[1]
+        return "(ORead %s %s (Some %s) %s)" % (cz(a[1]), cdtype(a[2] or []), crows(a[3]), cbytes(bytes.fromhex(a[4])))
 
     def term(self, c, out):
         lets = []
         for i, (ch, x) in enumerate(zip(c["chunks"], out["chunks"])):
             txt = "[" + "; ".join("(%s, %s)" % (cbytes(dl.encode()), cbytes(bytes.fromhex(t))) for dl, t in x["txt"]) + "]"
-            lets.append("let c%d := mkc %s %s %s %s in" % (i, cdtype(ch["dtype"]), crows(ch["rows"]), crows(x["back"]), txt))
+            back = "r%d" % i if x["back"] == ch["rows"] else crows(x["back"])
+            lets.append("let r%d := %s in let c%d := mkc %s r%d %s %s in" % (i, crows(ch["rows"]), i, cdtype(ch["dtype"]), i, back, txt))
         mt = "[" + "; ".join("(%s, (%s, %s, %s))" % (cbytes(e["joined"].encode()), cdelim(e["delim"] if isinstance(e["delim"], str) else None),
                                                       cdtype(e["dtype"] or []), cbytes(bytes.fromhex(e["u"])))
                              for e in out["table"]) + "]"
         ops = "[" + "; ".join(self._op(o, ob) for o, ob in zip(c["ops"], out["obs"])) + "]"
-        obs = "[" + "; ".join(self._obs(ob) for ob in out["obs"]) + "]"
-        return "%s v_history %s %s %s" % (" ".join(lets), mt, ops, obs)
+        # the bytes on disk after every operation: each distinct content is bound once; a content that
+        # differs from the previous one only in its first 28 bytes and by an appended tail is printed
+        # as that delta (the term still denotes exactly the observed bytes)
+        names, prev, prevname, obs = {}, None, None, []
+        for k, ob in enumerate(out["obs"]):
+            h = ob["disk"]
+            if h is None:
+                dn = "None"
+            else:
+                if h not in names:
+                    nm = "f%d" % len(names)
+                    raw = bytes.fromhex(h)
+                    if prev is not None and len(raw) >= len(prev) > 28 and raw[28:len(prev)] == prev[28:]:
+                        head = prevname if raw[:28] == prev[:28] else "%s ++ skipn 28 %s" % (cbytes(raw[:28]), prevname)
+                        tail = raw[len(prev):]
+                        lit = "(%s ++ %s)" % (head, cbytes(tail)) if tail else "(%s)" % head
+                    else:
+                        lit = cbytes(raw)
+                    lets.append("let %s : list byte := %s in" % (nm, lit))
+                    names[h] = nm
+                    prev, prevname = raw, nm
+                else:
+                    prev, prevname = bytes.fromhex(h), names[h]
+                dn = "(Some %s)" % names[h]
+            obs.append("(%s, %s)" % (self._ans(ob), dn))
+        return "%s v_history %s %s %s" % (" ".join(lets), mt, ops, "[" + "; ".join(obs) + "]")
 
     def show(self, c):
         return None
@@ -720,6 +741,32 @@ class History(Entry):
 
     def family(self, c):
         return c.get("family", "history")
+
+    def classify(self, c, out, v):
+        """a diagnostic label for a failing history (none of them is a known finding: the three defects
+        found while building this package are repaired by fixes/C03; a regression is reported under its label)"""
+        exists, is_open, fdt, fdl = False, False, None, None
+        for o, ob in zip(c["ops"], out["obs"]):
+            k, a = o["k"], ob["ans"]
+            if k in ("fn", "reopen") and (k == "reopen" or o["append"]) and not exists and a[0] == "err":
+                return "C03.append-to-missing-file-raises"
+            if k == "read" and is_open and exists and a[0] == "err":
+                return "C03.read-while-writer-open-fails"
+            if k in ("fn", "again") and a[0] == "ok" and exists and fdt is not None and fdl is None and (k == "again" or o["append"]) \
+                    and (k == "fn" or is_open) and c["chunks"][o["c"]]["dtype"] != fdt:
+                return "C03.incompatible-binary-append-accepted"
+            # bookkeeping (what the history did so far, as far as the labels need it)
+            if k == "create" or (k == "fn" and not o["append"]) or (k in ("fn", "again") and not exists and a[0] == "ok"):
+                if a[0] == "ok":
+                    fdt, fdl = c["chunks"][o["c"]]["dtype"], (o.get("dl") if k != "again" else fdl)
+            if k == "reopen" and not exists:
+                fdl = o["dl"]
+            exists = ob["disk"] is not None and len(ob["disk"]) > 0
+            if k in ("create", "reopen"):
+                is_open = a[0] == "ok"
+            elif k in ("close", "fn"):
+                is_open = False
+        return None
 
 
 # ----------------------------------------------------------------------------------------------
@@ -781,7 +828,20 @@ def source_tie(ctx):
                       found_input=False)
 
 
-ENTRIES = [History()]
+class Witness(History):
+    """the witnesses of one repaired defect (corpus/C03/fixed-*.json): an entry of its own, so that a
+    regression of each defect is reported on its own VIOLATION line"""
+
+    def __init__(self, name):
+        History.__init__(self)
+        self.name = name
+
+    def cases(self, ctx, round=0):
+        return []
+
+
+ENTRIES = [Witness("witness_append_missing"), Witness("witness_incompatible_binary_append"), Witness("witness_read_while_open"),
+           History()]
 
 TRUSTED = [
     "Coq 8.16.1 kernel (coqc, vm_compute; no native_compute); every C03 theorem is closed under the global context (no axioms)",
@@ -822,7 +882,12 @@ def run(ctx, replay=None):
         differential(ctx, PRE, ENTRIES, replay)
     finally:
         core.coq_eval = orig
-    ent = ENTRIES[0]
+    ent = History()
+    for e in ENTRIES:
+        ent.monitor_failures += e.monitor_failures
+        ent.texts |= e.texts
+        ent.nmonitored += e.nmonitored
+        ent.inexact_text += e.inexact_text
     ctx.count("monitor:header_ok headers", ent.nmonitored)
     ctx.count("text chunks whose value round trip is not exact (C04's subject; c_back used)", ent.inexact_text)
     fails = list(ent.monitor_failures)
